@@ -69,9 +69,10 @@ const (
 	KHarness
 	KChoice
 	KAtomic
+	KSignal
 )
 
-var kindNames = [...]string{"start", "lock", "rlock", "wlock-announce", "wlock", "wg-wait", "cond", "file", "harness", "choice", "atomic"}
+var kindNames = [...]string{"start", "lock", "rlock", "wlock-announce", "wlock", "wg-wait", "cond", "file", "harness", "choice", "atomic", "signal"}
 
 func (k Kind) String() string { return kindNames[k] }
 
@@ -363,6 +364,11 @@ func Point(kind Kind, obj any, enabled func() bool) bool {
 	}
 	return true
 }
+
+// Signal is the scheduling point the instrumenter puts in front of the synchronisation operations of the code under
+// test that no shim intercepts: close of a channel and calls of context cancel functions (rewrite 7). Without it
+// everything from a lock acquisition to the next one, a close in between included, would be one atomic step.
+func Signal() { Point(KSignal, nil, nil) }
 
 // HarnessPoint is a Point of kind KHarness with a label used as the site.
 func HarnessPoint(label string) {
